@@ -26,12 +26,59 @@ theorem optAt_some {xs : List Text} {i : Nat} (hi : i < xs.length) : optAt xs i 
 
 theorem optAt_nil (i : Nat) : optAt [] i = ok none := by simp [optAt]
 
+theorem optValueAt_some {xs : List Text} {i : Nat} (hi : i < xs.length) :
+    optValueAt xs i = ok (nonBlank xs[i]) := by
+  have : xs.length > 0 := by omega
+  simp [optValueAt, this, idx_eq hi]
+
+theorem optValueAt_nil (i : Nat) : optValueAt [] i = ok none := by simp [optValueAt]
+
+theorem getElem?_valuesFrom : ∀ (vs : List (Option Text)) (bs : List Text) (i : Nat),
+    (valuesFrom vs bs)[i]? = vs[i]?.map (fun v => v.getD (bs.getD i []))
+  | [], _, _ => by simp [valuesFrom]
+  | v :: vs, bs, 0 => by cases bs <;> simp [valuesFrom]
+  | v :: vs, bs, i + 1 => by
+    simp only [valuesFrom, List.getElem?_cons_succ]
+    rw [getElem?_valuesFrom vs bs.tail i]
+    cases bs <;> simp
+
+/-- a present allowed-values text is not blank, the text of a cell without allowed values is -/
+theorem nonBlank_value {v : Option Text} {b : Text}
+    (hv : ∀ x, v = some x → (trim x).isEmpty = false) (hb : (trim b).isEmpty = true) :
+    nonBlank (v.getD b) = v := by
+  cases v with
+  | none => simp [nonBlank, hb]
+  | some x => simp [nonBlank, hv x rfl]
+
+theorem blank_getD {bs : List Text} (hb : ∀ b ∈ bs, (trim b).isEmpty = true) (i : Nat) :
+    (trim (bs.getD i [])).isEmpty = true := by
+  rw [List.getD_eq_getElem?_getD]
+  cases h : bs[i]? with
+  | none => rfl
+  | some b => exact hb b (List.mem_of_getElem? h)
+
+theorem no_values_of_not_hasValues {t : TableSpec} (h : t.hasValues = false) :
+    (∀ i ∈ t.inputs, i.values = none) ∧ (∀ o ∈ t.outputs, o.values = none) := by
+  simp only [TableSpec.hasValues, Bool.or_eq_false_iff, List.any_eq_false] at h
+  constructor
+  · intro i hi
+    have := h.1 i hi
+    cases hv : i.values with
+    | none => rfl
+    | some x => rw [hv] at this; simp at this
+  · intro o ho
+    have := h.2 o ho
+    cases hv : o.values with
+    | none => rfl
+    | some x => rw [hv] at this; simp at this
+
 section Build
-variable (t : TableSpec) (hw : t.Wf)
+variable (d : Decor) (t : TableSpec) (hw : t.Wf)
+  (hbi : ∀ b ∈ d.inBlanks, (trim b).isEmpty = true) (hbo : ∀ b ∈ d.outBlanks, (trim b).isEmpty = true)
 include hw
 
 theorem validateSize_horzOf (o : Oriented) (ho : o.ruleCount = t.rules.length) :
-    validateSize o (horzOf t) = ok () := by
+    validateSize o (horzOf d t) = ok () := by
   have hn := hw.inputs_pos
   have hm := hw.outputs_pos
   have hr := hw.rules_pos
@@ -53,9 +100,9 @@ theorem validateSize_horzOf (o : Oriented) (ho : o.ruleCount = t.rules.length) :
     simp only [List.mem_map] at hrow
     obtain ⟨r, hr, rfl⟩ := hrow
     simp [hw.rule_anns r hr]
-  have c3 : ¬ ((if t.hasValues = true then t.ivals else []).length > 0 ∧
-      (if t.hasValues = true then t.ivals else []).length ≠ t.inputs.length) := by
-    cases t.hasValues <;> simp [len_ivals]
+  have c3 : ¬ ((if t.hasValues = true then (t.ivals d) else []).length > 0 ∧
+      (if t.hasValues = true then (t.ivals d) else []).length ≠ t.inputs.length) := by
+    cases t.hasValues <;> simp [len_ivals d t]
   have c5 : ¬ (t.outputs.length > 1 ∧
       (if t.outputs.length = 1 then [] else t.names).length ≠ t.outputs.length) := by
     by_cases h1 : t.outputs.length = 1
@@ -65,9 +112,9 @@ theorem validateSize_horzOf (o : Oriented) (ho : o.ruleCount = t.rules.length) :
     by_cases h1 : t.outputs.length = 1
     · simp [h1]
     · intro h; omega
-  have c7 : ¬ ((if t.hasValues = true then t.ovals else []).length > 0 ∧
-      (if t.hasValues = true then t.ovals else []).length ≠ t.outputs.length) := by
-    cases t.hasValues <;> simp [len_ovals]
+  have c7 : ¬ ((if t.hasValues = true then (t.ovals d) else []).length > 0 ∧
+      (if t.hasValues = true then (t.ovals d) else []).length ≠ t.outputs.length) := by
+    cases t.hasValues <;> simp [len_ovals d t]
   have c13 : ¬ (t.annotations.length > 0 ∧
       (if t.annotations.length = 0 then [] else t.rules.map (·.anns)).length ≠ o.ruleCount) := by
     by_cases hk : t.annotations.length = 0
@@ -89,7 +136,7 @@ theorem validateSize_horzOf (o : Oriented) (ho : o.ruleCount = t.rules.length) :
   have c11 : ¬ (t.rules.map (·.outs)).length ≠ o.ruleCount := by simp [ho]
   have c12 : ¬ ((t.rules.map (·.outs)).any (fun row => decide (row.length ≠ t.outputs.length)) = true) := by
     rw [a2]; simp
-  let h := horzOf t
+  let h := horzOf d t
   have d1 : ¬ h.inputClauseCount = 0 := c1
   have d2 : ¬ h.inputExpressions.length ≠ h.inputClauseCount := c2
   have d3 : ¬ (h.inputValues.length > 0 ∧ h.inputValues.length ≠ h.inputClauseCount) := c3
@@ -109,37 +156,43 @@ theorem validateSize_horzOf (o : Oriented) (ho : o.ruleCount = t.rules.length) :
   rw [if_neg d1, if_neg d2, if_neg d3, if_neg d4, if_neg d5, if_neg d6, if_neg d7, if_neg c8,
     if_neg d9, if_neg d10, if_neg d11, if_neg d12, if_neg d13, if_neg d14]
 
+include hbi in
 theorem build_inputs :
-    Outcome.mapM (buildInput (horzOf t)) (List.range' 0 t.inputs.length) = ok t.inputs := by
+    Outcome.mapM (buildInput (horzOf d t)) (List.range' 0 t.inputs.length) = ok t.inputs := by
   apply mapM_range'_ok' t.inputs 0 t.inputs.length rfl
   intro i hi
   have hi1 : i < t.exprs.length := by rw [len_exprs]; exact hi
-  have hi2 : i < t.ivals.length := by rw [len_ivals]; exact hi
+  have hi2 : i < (t.ivals d).length := by rw [len_ivals d t]; exact hi
   have hmem := List.getElem_mem hi
   have hv := hw.in_values _ hmem
-  have he : idx (horzOf t).inputExpressions i = ok t.inputs[i].expr := by
+  have he : idx (horzOf d t).inputExpressions i = ok t.inputs[i].expr := by
     show idx t.exprs i = _
     rw [idx_eq hi1]; simp [TableSpec.exprs]
-  have hval : optAt (horzOf t).inputValues i = ok t.inputs[i].values := by
-    show optAt (if t.hasValues then t.ivals else []) i = _
+  have hval : optValueAt (horzOf d t).inputValues i = ok t.inputs[i].values := by
+    show optValueAt (if t.hasValues then (t.ivals d) else []) i = _
     cases hV : t.hasValues with
     | false =>
-      rw [hV] at hv
-      simp only [Bool.false_eq_true, if_false, optAt_nil, opt_none_of_not_isSome hv]
+      have := (no_values_of_not_hasValues hV).1 _ hmem
+      simp only [Bool.false_eq_true, if_false, optValueAt_nil, this]
     | true =>
-      rw [hV] at hv
-      simp only [if_true, optAt_some hi2]
-      simp [TableSpec.ivals, opt_getD_of_isSome hv]
+      simp only [if_true, optValueAt_some hi2]
+      have hg : (t.ivals d)[i]? = some (t.inputs[i].values.getD (d.inBlanks.getD i [])) := by
+        simp [TableSpec.ivals, getElem?_valuesFrom, List.getElem?_eq_getElem hi]
+      have hg' : (t.ivals d)[i] = t.inputs[i].values.getD (d.inBlanks.getD i []) := by
+        rw [List.getElem?_eq_getElem hi2] at hg
+        exact Option.some.inj hg
+      rw [hg', nonBlank_value (hv) (blank_getD hbi i)]
   simp only [Nat.zero_add, buildInput, he, hval, Outcome.ok_bind]
 
+include hbo in
 theorem build_outputs :
-    Outcome.mapM (buildOutput (horzOf t)) (List.range' 0 t.outputs.length) = ok t.outputs := by
+    Outcome.mapM (buildOutput (horzOf d t)) (List.range' 0 t.outputs.length) = ok t.outputs := by
   apply mapM_range'_ok' t.outputs 0 t.outputs.length rfl
   intro i hi
   have hi1 : i < t.names.length := by rw [len_names]; exact hi
-  have hi2 : i < t.ovals.length := by rw [len_ovals]; exact hi
+  have hi2 : i < (t.ovals d).length := by rw [len_ovals d t]; exact hi
   have hmem := List.getElem_mem hi
-  have hname : optAt (horzOf t).outputComponents i = ok t.outputs[i].name := by
+  have hname : optAt (horzOf d t).outputComponents i = ok t.outputs[i].name := by
     show optAt (if t.outputs.length = 1 then [] else t.names) i = _
     by_cases h1 : t.outputs.length = 1
     · have := (hw.single h1).2 _ hmem
@@ -147,29 +200,33 @@ theorem build_outputs :
     · have := hw.multi h1 _ hmem
       rw [if_neg h1, optAt_some hi1]
       simp [TableSpec.names, opt_getD_of_isSome this]
-  have hval : optAt (horzOf t).outputValues i = ok t.outputs[i].values := by
-    show optAt (if t.hasValues then t.ovals else []) i = _
+  have hval : optValueAt (horzOf d t).outputValues i = ok t.outputs[i].values := by
+    show optValueAt (if t.hasValues then (t.ovals d) else []) i = _
     have hv := hw.out_values _ hmem
     cases hV : t.hasValues with
     | false =>
-      rw [hV] at hv
-      simp only [Bool.false_eq_true, if_false, optAt_nil, opt_none_of_not_isSome hv]
+      have := (no_values_of_not_hasValues hV).2 _ hmem
+      simp only [Bool.false_eq_true, if_false, optValueAt_nil, this]
     | true =>
-      rw [hV] at hv
-      simp only [if_true, optAt_some hi2]
-      simp [TableSpec.ovals, opt_getD_of_isSome hv]
+      simp only [if_true, optValueAt_some hi2]
+      have hg : (t.ovals d)[i]? = some (t.outputs[i].values.getD (d.outBlanks.getD i [])) := by
+        simp [TableSpec.ovals, getElem?_valuesFrom, List.getElem?_eq_getElem hi]
+      have hg' : (t.ovals d)[i] = t.outputs[i].values.getD (d.outBlanks.getD i []) := by
+        rw [List.getElem?_eq_getElem hi2] at hg
+        exact Option.some.inj hg
+      rw [hg', nonBlank_value (hv) (blank_getD hbo i)]
   simp only [Nat.zero_add, buildOutput, hname, hval, Outcome.ok_bind]
 
 omit hw in
 theorem build_annotations :
-    Outcome.mapM (fun i => idx (horzOf t).annotations i) (List.range' 0 t.annotations.length)
+    Outcome.mapM (fun i => idx (horzOf d t).annotations i) (List.range' 0 t.annotations.length)
       = ok t.annotations := by
   apply mapM_range'_ok' t.annotations 0 t.annotations.length rfl
   intro i hi
   simp only [horzOf, Nat.zero_add, idx_eq hi]
 
 theorem build_rule {i : Nat} (hi : i < t.rules.length) :
-    buildRule (horzOf t) i = ok t.rules[i] := by
+    buildRule (horzOf d t) i = ok t.rules[i] := by
   have hmem := List.getElem_mem hi
   have h1 := hw.rule_ins _ hmem
   have h2 := hw.rule_outs _ hmem
@@ -177,18 +234,18 @@ theorem build_rule {i : Nat} (hi : i < t.rules.length) :
   have hi' : i < (t.rules.map (·.ins)).length := by simpa using hi
   have ho' : i < (t.rules.map (·.outs)).length := by simpa using hi
   have ha' : i < (t.rules.map (·.anns)).length := by simpa using hi
-  have e1 : Outcome.mapM (fun c => do let row ← idx (horzOf t).inputEntries i; idx row c)
-      (List.range' 0 (horzOf t).inputClauseCount) = ok t.rules[i].ins := by
+  have e1 : Outcome.mapM (fun c => do let row ← idx (horzOf d t).inputEntries i; idx row c)
+      (List.range' 0 (horzOf d t).inputClauseCount) = ok t.rules[i].ins := by
     apply mapM_range'_ok' t.rules[i].ins 0 _ h1
     intro c hc
     simp only [horzOf, idx_eq hi', Outcome.ok_bind, List.getElem_map, Nat.zero_add, idx_eq hc]
-  have e2 : Outcome.mapM (fun c => do let row ← idx (horzOf t).outputEntries i; idx row c)
-      (List.range' 0 (horzOf t).outputClauseCount) = ok t.rules[i].outs := by
+  have e2 : Outcome.mapM (fun c => do let row ← idx (horzOf d t).outputEntries i; idx row c)
+      (List.range' 0 (horzOf d t).outputClauseCount) = ok t.rules[i].outs := by
     apply mapM_range'_ok' t.rules[i].outs 0 _ h2
     intro c hc
     simp only [horzOf, idx_eq ho', Outcome.ok_bind, List.getElem_map, Nat.zero_add, idx_eq hc]
-  have e3 : Outcome.mapM (fun c => do let row ← idx (horzOf t).annotationEntries i; idx row c)
-      (List.range' 0 (horzOf t).annotationClauseCount) = ok t.rules[i].anns := by
+  have e3 : Outcome.mapM (fun c => do let row ← idx (horzOf d t).annotationEntries i; idx row c)
+      (List.range' 0 (horzOf d t).annotationClauseCount) = ok t.rules[i].anns := by
     apply mapM_range'_ok' t.rules[i].anns 0 _ h3
     intro c hc
     have hk : t.annotations.length ≠ 0 := by omega
@@ -198,24 +255,25 @@ theorem build_rule {i : Nat} (hi : i < t.rules.length) :
   rfl
 
 theorem build_rules :
-    Outcome.mapM (buildRule (horzOf t)) (List.range' 0 t.rules.length) = ok t.rules := by
+    Outcome.mapM (buildRule (horzOf d t)) (List.range' 0 t.rules.length) = ok t.rules := by
   apply mapM_range'_ok' t.rules 0 t.rules.length rfl
   intro i hi
   rw [Nat.zero_add]
-  exact build_rule t hw hi
+  exact build_rule d t hw hi
 
+include hbi hbo in
 /-- `build` on the recognised parts of a drawn table returns the table. -/
 theorem buildTable_horzOf (P' : Plane) :
-    buildTable ⟨t.infoName, ⟨t.hitPolicy, t.orientation, t.rules.length⟩, horzOf t, P'⟩ = ok t := by
+    buildTable ⟨t.infoName, ⟨t.hitPolicy, t.orientation, t.rules.length⟩, horzOf d t, P'⟩ = ok t := by
   unfold buildTable
-  simp only [validateSize_horzOf t hw ⟨t.hitPolicy, t.orientation, t.rules.length⟩ rfl, Outcome.ok_bind]
-  have i1 := build_inputs t hw
-  have i2 := build_outputs t hw
-  have i3 := build_annotations t
-  have i4 := build_rules t hw
-  have q1 : (horzOf t).inputClauseCount = t.inputs.length := rfl
-  have q2 : (horzOf t).outputClauseCount = t.outputs.length := rfl
-  have q3 : (horzOf t).annotationClauseCount = t.annotations.length := rfl
+  simp only [validateSize_horzOf d t hw ⟨t.hitPolicy, t.orientation, t.rules.length⟩ rfl, Outcome.ok_bind]
+  have i1 := build_inputs d t hw hbi
+  have i2 := build_outputs d t hw hbo
+  have i3 := build_annotations d t
+  have i4 := build_rules d t hw
+  have q1 : (horzOf d t).inputClauseCount = t.inputs.length := rfl
+  have q2 : (horzOf d t).outputClauseCount = t.outputs.length := rfl
+  have q3 : (horzOf d t).annotationClauseCount = t.annotations.length := rfl
   rw [q1, q2, q3, i1, i2, i3]
   simp only [Outcome.ok_bind, i4]
   rfl
